@@ -320,7 +320,7 @@ PROPS["C13"] = dict(
 REM_CLASSES = {"1": "map ill-formed after the operation", "2": "a face is not a triangle / a vertex is undefined",
                "3": "numbers of vertices/edges/faces did not change by the operation's amounts", "4": "C15:vertex-set-wrong",
                "5": "signed area of the mesh not conserved", "6": "triangles around the collapsed vertex have mixed orientation",
-               "7": "swap did not produce the two triangles around the other diagonal", "8": "a surviving vertex lost or changed its anchor",
+               "7": "swap did not produce the two triangles around the other diagonal", "8": "a surviving cell lost or changed its anchor",
                "9": "removed darts not flagged", "10": "C15:collapse-vertex-off-midpoint"}
 PROPS["C15"] = dict(
     level="translation_validation",
